@@ -1,15 +1,22 @@
 import IpaVerif.Model.Util
 import IpaVerif.Model.Hybrid
-/-! Line-protocol handlers for property C01 (model side). Import-free. -/
+import IpaVerif.Generated.HybridConsts
+/-! Line-protocol handlers for property C01 (model side). Import-free.
+Widths, bucket count and the aggregation proof-chunk size come from the translator
+(`Generated/HybridConsts.lean`, re-read from query/runner/hybrid.rs, aggregation/mod.rs, dzkp_validator.rs). -/
 namespace IpaVerif.Driver.C01
 open IpaVerif.Util IpaVerif.Hybrid
+open IpaVerif.Generated.Hybrid (bkBits vBits hvBits buckets aggProofChunk targetProofSizeTest)
 
-/-- aggregate_values_proof_chunk(256, 3) with the cfg(test) TARGET_PROOF_SIZE of the harness build. -/
-def aggChunk : Nat := 8
+/-- `aggregate_values_proof_chunk(B, V::BITS)` with the cfg(test) TARGET_PROOF_SIZE of the harness build. -/
+def aggChunk : Nat := aggProofChunk targetProofSizeTest
+
+/-- the instantiation of `Query::execute` (`hybrid_protocol::<_, BA8, BA3, BA32, 3, 256>`). -/
+def prodW : Widths := { bkW := bkBits, vW := vBits, hvW := hvBits, buckets := buckets }
 
 def widthsOf : String → Option Widths
-  | "prod" => some { bkW := 8, vW := 3, hvW := 32, buckets := 256 }
-  | "small" => some { bkW := 8, vW := 3, hvW := 8, buckets := 256 }
+  | "prod" => some prodW
+  | "small" => some { prodW with hvW := 8 }
   | _ => none
 
 def parseRec (s : String) : Option Rec :=
@@ -47,8 +54,6 @@ def parseRows (s : String) : Option (List Row) :=
 def showRows (rows : List Row) : String :=
   if rows.isEmpty then "-" else String.intercalate "," (rows.map (fun r => s!"{r.1}:{r.2}"))
 
-def prodW : Widths := { bkW := 8, vW := 3, hvW := 32, buckets := 256 }
-
 def handle (toks : List String) : Option String :=
   match toks with
   | ["c01.agg", _mode, tags, recs] =>
@@ -58,8 +63,8 @@ def handle (toks : List String) : Option String :=
   | ["c01.brk", _mode, hv, rows] =>
     match hv.toNat?, parseRows rows with
     | some hv, some rows =>
-      let w : Widths := { bkW := 8, vW := 3, hvW := hv, buckets := 256 }
-      if rows.isEmpty then some (showNatList (List.replicate 256 0))
+      let w : Widths := { prodW with hvW := hv }
+      if rows.isEmpty then some (showNatList (List.replicate w.buckets 0))
       else some (showNatList (finalize w [shardHistogram w aggChunk rows]))
     | _, _ => some "bad-request"
   | "c01.e2e" :: _ =>
